@@ -101,8 +101,12 @@ impl SafeFileCreator {
         writer.flush()?;
         drop(writer);
 
+        #[cfg(xet_verif)]
+        crate::verif::crash_point("sfc_before_rename", dest_path);
         // Replace the original file with the new file
         fs::rename(&self.temp_path, dest_path)?;
+        #[cfg(xet_verif)]
+        crate::verif::crash_point("sfc_after_rename", dest_path);
 
         if let Some(metadata) = self.original_metadata.as_ref() {
             set_file_metadata(dest_path, metadata, false)?;
